@@ -93,6 +93,9 @@ def _sym(p, ens, level=None, soft=True, dimform=None):
     if ens["probs"] is not None:
         kw["probs"] = list(ens["probs"])
     c = dc.call_soft if soft else dc.call
+    if p.get("callform") == "positional":  # the documented order: (states, probs, level, dim)
+        pos = [kw.get("probs"), kw["level"]] + ([kw["dim"]] if "dim" in kw else [])
+        return dc.fval(c(symmetric_extension_hierarchy, ens["states"], *pos))
     return dc.fval(c(symmetric_extension_hierarchy, ens["states"], **kw))
 
 
@@ -569,6 +572,22 @@ def cases(tier, seed):
                                 add("sym.frame", b2, icl("sym/level2", da, db, field, "frame-" + rep))
                                 if n == 3:
                                     add("sym.product_basis_one", dict(b2, kind="product-basis"), icl("sym/level2", da, db, field, "product-basis"))
+        # a state that is never prepared (exact zero prior): an admissible ensemble, for either representation
+        for rep in reps2:
+            for pk in ("zero-first", "zero-middle"):
+                i += 1
+                base = dict(da=2, db=2, n=3, field=pick(fields, i), rep=rep, prior=pk, kind="pure", rank=1, seed=sd + i, phases=True, level=1, dimform="list")
+                ic = icl("sym/level1", 2, 2, base["field"], "zero-prior-" + rep)
+                for cl in ("sym.returns_normally", "sym.level1_le_ppt", "sym.level1_ge_ppt", "sym.ge_locc"):
+                    add(cl, base, ic)
+                add("sym.frame", base, icl("sym/level1", 2, 2, base["field"], "frame-zero-prior-" + rep))
+        # arguments passed by position, in the documented order (states, probs, level, dim)
+        for bk in bells[:2]:
+            for dimform in ("omitted", "list"):
+                i += 1
+                base = dict(da=2, db=2, kind=bk, field="real", rep=pick(reps2, i), prior="uniform", seed=sd + i, level=1, dimform=dimform, callform="positional")
+                add("sym.bell_le", base, icl("sym/level1", 2, 2, "real", "positional-" + dimform))
+                add("sym.bell_ge", base, icl("sym/level1", 2, 2, "real", "positional-" + dimform))
         for field in fields:
             for bk in bells:
                 for level in (1, 2):
